@@ -1,8 +1,11 @@
 /-
   C10 — validation accepts exactly the well-defined models.
   About `errors` as repaired by the fix: commits for defects D4 (definitions compared, every
-  occurrence seen) and D5 (edges as pairs).  The cycle clause is modelled (reachability in the
-  id graph with dict override) and tied, not proved: `graphlib` is trusted to decide it.
+  occurrence seen) and D5 (edges as pairs).  The cycle clause: the model's `hasCycle` is a bounded
+  search of the id graph (with dict override); `cycle_detected` / `errors_nil_acyclic` prove that
+  the bound suffices — an accepted model has no id that reaches itself — and `tree_acyclic` /
+  `tree_with_distinct_ids_accepted` prove the converse clause for trees without any assumption
+  about cycles.  That `graphlib` reports a cycle exactly when `hasCycle` does is the tie.
 -/
 import Puan.Model.Errors
 namespace Puan.C10
@@ -312,5 +315,358 @@ example :
                                           .node "B" ⟨0,1⟩ 1 1 [.leaf "x" ⟨-2,3⟩, .leaf "z" ⟨0,1⟩] {}] {}
     let dash : P := .node "T" ⟨0,1⟩ 1 2 [.node "A" ⟨0,1⟩ 1 1 [.leaf "b-c" ⟨0,1⟩] {}, .node "A-b" ⟨0,1⟩ 1 1 [.leaf "c" ⟨0,1⟩] {}] {}
     ambivalentVars bad = true ∧ dupEdges dash = false ∧ ambivalentVars dash = false := by decide
+
+/-! ## Trees with pairwise distinct ids have an acyclic id graph
+
+The converse clause needs `hasCycle t = false`.  For tree-shaped models with pairwise distinct ids this is a theorem:
+along every edge of the id graph the size of the sub-tree strictly decreases, so the search from a node's children never
+comes back to the node. -/
+
+/-- whatever `reach` returns was already seen or is reached from the frontier; a measure that strictly decreases along
+    edges therefore stays below any bound that holds for `seen` and the frontier -/
+theorem reach_below (g : List (String × List String)) (meas : String → Nat) (r : Nat)
+    (hedge : ∀ a l, dictLookup g a = some l → ∀ b ∈ l, meas b < meas a) :
+    ∀ (fuel : Nat) (seen frontier : List String), (∀ x ∈ seen, meas x < r) → (∀ x ∈ frontier, meas x < r) →
+      ∀ x ∈ reach g fuel seen frontier, meas x < r
+  | 0, seen, _, hs, _ => by simpa [reach] using hs
+  | fuel + 1, seen, frontier, hs, hf => by
+      intro x hx
+      simp only [reach] at hx
+      have hnext : ∀ y ∈ (frontier.flatMap (fun k => (dictLookup g k).getD [])).eraseDups, meas y < r := by
+        intro y hy
+        have hy' := List.mem_eraseDups.1 hy
+        obtain ⟨k, hk, hyk⟩ := List.mem_flatMap.1 hy'
+        cases hl : dictLookup g k with
+        | none => simp [hl] at hyk
+        | some l =>
+            simp only [hl, Option.getD_some] at hyk
+            exact Nat.lt_trans (hedge k l hl y hyk) (hf k hk)
+      split at hx
+      · exact hs x hx
+      · refine reach_below g meas r hedge fuel _ _ ?_ ?_ x hx
+        · intro y hy
+          rcases List.mem_append.1 hy with h | h
+          · exact hs y h
+          · exact hnext y (List.mem_filter.1 h).1
+        · intro y hy
+          exact hnext y (List.mem_filter.1 hy).1
+
+/-- a measure that strictly decreases along every edge of the id graph rules out cycles -/
+theorem hasCycle_false_of_measure (t : P) (meas : String → Nat)
+    (hedge : ∀ a l, dictLookup (deps t) a = some l → ∀ b ∈ l, meas b < meas a) : hasCycle t = false := by
+  unfold hasCycle
+  simp only
+  apply Bool.eq_false_iff.2
+  intro h
+  obtain ⟨k, _, hk⟩ := List.any_eq_true.1 h
+  have hstart : ∀ x ∈ ((dictLookup (deps t) k).getD []).eraseDups, meas x < meas k := by
+    intro x hx
+    have hx' := List.mem_eraseDups.1 hx
+    cases hl : dictLookup (deps t) k with
+    | none => simp [hl] at hx'
+    | some l => simp only [hl, Option.getD_some] at hx'; exact hedge k l hl x hx'
+  have := reach_below (deps t) meas (meas k) hedge _ _ _ hstart hstart k (by simpa using hk)
+  exact Nat.lt_irrefl _ this
+
+theorem self_mem_subs : ∀ p : P, p ∈ subs p
+  | .leaf .. => by simp [subs]
+  | .node .. => by simp [subs]
+
+mutual
+theorem subs_trans : ∀ (t n x : P), n ∈ subs t → x ∈ subs n → x ∈ subs t
+  | .leaf i b, n, x, hn, hx => by simp [subs] at hn; subst hn; exact hx
+  | .node i b s v ks m, n, x, hn, hx => by
+      simp only [subs, List.mem_cons] at hn
+      rcases hn with rfl | hn
+      · exact hx
+      · simp only [subs, List.mem_cons]; right; exact subsL_trans ks n x hn hx
+theorem subsL_trans : ∀ (ks : List P) (n x : P), n ∈ subsL ks → x ∈ subs n → x ∈ subsL ks
+  | [], n, x, hn, _ => by simp [subsL] at hn
+  | k :: ks, n, x, hn, hx => by
+      simp only [subsL, List.mem_append] at hn ⊢
+      rcases hn with h | h
+      · left; exact subs_trans k n x h hx
+      · right; exact subsL_trans ks n x h hx
+end
+
+theorem kid_subs : ∀ (ks : List P) (c : P), c ∈ ks → (∀ x ∈ subs c, x ∈ subsL ks) ∧ (subs c).length ≤ (subsL ks).length
+  | [], c, h => by simp at h
+  | k :: ks, c, h => by
+      simp only [subsL, List.length_append]
+      rcases List.mem_cons.1 h with rfl | h
+      · exact ⟨fun x hx => List.mem_append.2 (Or.inl hx), by omega⟩
+      · have ⟨h1, h2⟩ := kid_subs ks c h
+        exact ⟨fun x hx => List.mem_append.2 (Or.inr (h1 x hx)), by omega⟩
+
+theorem find_of_nodup {α β} [BEq β] [LawfulBEq β] (f : α → β) : ∀ (l : List α) (n : α), (l.map f).Nodup → n ∈ l →
+    l.find? (fun y => f y == f n) = some n
+  | [], n, _, h => by simp at h
+  | y :: l, n, hnd, h => by
+      simp only [List.map_cons, List.nodup_cons] at hnd
+      rcases List.mem_cons.1 h with rfl | h
+      · simp [List.find?_cons]
+      · have hne : (f y == f n) = false := by
+          apply Bool.eq_false_iff.2
+          intro he
+          have : f y = f n := by simpa using he
+          exact hnd.1 (this ▸ List.mem_map.2 ⟨n, h, rfl⟩)
+        simp only [List.find?_cons, hne]
+        exact find_of_nodup f l n hnd.2 h
+
+/-- **a tree-shaped model with pairwise distinct ids has no circular references** -/
+theorem tree_acyclic (t : P) (hn : ((subs t).map (·.id)).Nodup) : hasCycle t = false := by
+  apply hasCycle_false_of_measure t
+    (fun x => match (subs t).find? (fun y => y.id == x) with | some n => (subs n).length | none => 0)
+  intro a l hl b hb
+  -- the entry of `a` comes from a node `n` of the tree, and `b` is the id of one of its children
+  unfold dictLookup at hl
+  cases hf : (deps t).reverse.find? (fun e => e.1 == a) with
+  | none => simp [hf] at hl
+  | some e =>
+      simp only [hf, Option.map_some, Option.some.injEq] at hl
+      have he1 : e.1 = a := by have := List.find?_some hf; simpa using this
+      have hem : e ∈ deps t := List.mem_reverse.1 (List.mem_of_find?_eq_some hf)
+      obtain ⟨n, hnm, hdn⟩ := List.mem_filterMap.1 hem
+      cases n with
+      | leaf => simp [depsOf] at hdn
+      | node i bb s v ks m =>
+          simp only [depsOf, Option.some.injEq] at hdn
+          subst hdn
+          simp only at he1 hl
+          subst he1; subst hl
+          -- b is the id of a child c
+          have hc : ∃ c ∈ ks, c.id = b := by
+            rcases List.mem_append.1 hb with h | h
+            · obtain ⟨c, hc, rfl⟩ := List.mem_map.1 h; exact ⟨c, (List.mem_filter.1 hc).1, rfl⟩
+            · obtain ⟨c, hc, rfl⟩ := List.mem_map.1 h; exact ⟨c, (List.mem_filter.1 hc).1, rfl⟩
+          obtain ⟨c, hck, rfl⟩ := hc
+          have ⟨hsub, hlen⟩ := kid_subs ks c hck
+          have hcm : c ∈ subs t := subs_trans t _ c hnm (by simp only [subs, List.mem_cons]; right; exact hsub c (self_mem_subs c))
+          have f1 : (subs t).find? (fun y => y.id == i) = some (.node i bb s v ks m) :=
+            find_of_nodup (·.id) (subs t) (.node i bb s v ks m) hn hnm
+          have f2 : (subs t).find? (fun y => y.id == c.id) = some c := find_of_nodup (·.id) (subs t) c hn hcm
+          simp only [f1, f2]
+          simp only [subs, List.length_cons]
+          omega
+
+/-- **the converse clause for trees, without any assumption about cycles**: every tree-shaped model with pairwise
+    distinct ids (in which no node lists a child twice — implied by distinct ids) is accepted -/
+theorem tree_accepted (t : P) (hn : ((subs t).map (·.id)).Nodup)
+    (hk : ∀ n ∈ subs t, (n.kids.map (·.id)).Nodup) : errors t = [] :=
+  distinct_ids_accepted t hn hk (tree_acyclic t hn)
+
+mutual
+theorem subs_sublist : ∀ (t n : P), n ∈ subs t → (subs n).Sublist (subs t)
+  | .leaf i b, n, hn => by simp [subs] at hn; subst hn; exact List.Sublist.refl _
+  | .node i b s v ks m, n, hn => by
+      simp only [subs, List.mem_cons] at hn
+      rcases hn with rfl | hn
+      · exact List.Sublist.refl _
+      · simp only [subs]; exact List.Sublist.cons _ (subsL_sublist ks n hn)
+theorem subsL_sublist : ∀ (ks : List P) (n : P), n ∈ subsL ks → (subs n).Sublist (subsL ks)
+  | [], n, hn => by simp [subsL] at hn
+  | k :: ks, n, hn => by
+      simp only [subsL, List.mem_append] at hn ⊢
+      rcases hn with h | h
+      · exact (subs_sublist k n h).trans (List.sublist_append_left _ _)
+      · exact (subsL_sublist ks n h).trans (List.sublist_append_right _ _)
+end
+
+theorem subs_head : ∀ p : P, ∃ rest, subs p = p :: rest
+  | .leaf i b => ⟨[], by simp [subs]⟩
+  | .node i b s v ks m => ⟨subsL ks, by simp [subs]⟩
+
+theorem kids_sublist : ∀ ks : List P, ks.Sublist (subsL ks)
+  | [] => by simp [subsL]
+  | k :: ks => by
+      obtain ⟨rest, hr⟩ := subs_head k
+      simp only [subsL, hr, List.cons_append]
+      exact List.Sublist.cons₂ _ ((kids_sublist ks).trans (List.sublist_append_right _ _))
+
+/-- in a tree with pairwise distinct ids no node lists a child twice -/
+theorem tree_kids_nodup (t : P) (hn : ((subs t).map (·.id)).Nodup) : ∀ n ∈ subs t, (n.kids.map (·.id)).Nodup := by
+  intro n hnm
+  have h1 : ((subs n).map (·.id)).Nodup := List.Nodup.sublist ((subs_sublist t n hnm).map _) hn
+  cases n with
+  | leaf => simp [P.kids]
+  | node i b s v ks m =>
+      simp only [subs, List.map_cons, List.nodup_cons] at h1
+      exact List.Nodup.sublist ((kids_sublist ks).map _) h1.2
+
+/-- **every tree-shaped model with pairwise distinct ids is accepted** (no further hypothesis) -/
+theorem tree_with_distinct_ids_accepted (t : P) (hn : ((subs t).map (·.id)).Nodup) : errors t = [] :=
+  tree_accepted t hn (tree_kids_nodup t hn)
+
+example : errors (.node "T" ⟨0,1⟩ 1 2 [.node "A" ⟨0,1⟩ 1 1 [.leaf "x" ⟨0,1⟩, .leaf "y" ⟨0,1⟩] {}, .leaf "z" ⟨0,3⟩] {}) = [] :=
+  tree_with_distinct_ids_accepted _ (by decide)
+
+/-! ## `errors() = []` really means: no circular references
+
+`hasCycle` searches from the children of every node with a bounded number of rounds.  The bound suffices: every round that
+does not end the search expands at least one node that had not been expanded before, so the search ends because nothing
+new turns up, and what it has seen by then is closed under the edges of the id graph. -/
+
+/-- the ids a node's entry lists (its children) -/
+def succ (g : List (String × List String)) (a : String) : List String := (dictLookup g a).getD []
+
+/-- a non-empty path along the edges of the id graph -/
+inductive Path (g : List (String × List String)) : String → String → Prop
+  | edge {a b : String} : b ∈ succ g a → Path g a b
+  | step {a b c : String} : b ∈ succ g a → Path g b c → Path g a c
+
+def expanded (seen frontier : List String) (x : String) : Bool := seen.contains x && !frontier.contains x
+
+/-- the entries whose node has not been expanded yet -/
+def pot (g : List (String × List String)) (seen frontier : List String) : Nat :=
+  ((g.map (·.1)).filter (fun k => !expanded seen frontier k)).length
+
+theorem filter_length_lt' {α} (p q : α → Bool) : ∀ l : List α, (∀ x, p x = true → q x = true) →
+    (∃ a ∈ l, q a = true ∧ p a = false) → (l.filter p).length < (l.filter q).length
+  | [], _, h => by obtain ⟨a, ha, _⟩ := h; simp at ha
+  | x :: r, hpq, h => by
+      have hle : (r.filter p).length ≤ (r.filter q).length := by
+        clear h
+        induction r with
+        | nil => simp
+        | cons y ys ih =>
+            simp only [List.filter_cons]
+            cases hp : p y <;> cases hq : q y <;> simp <;> try omega
+            have := hpq y hp; rw [hq] at this; cases this
+      obtain ⟨a, ha, hqa, hpa⟩ := h
+      simp only [List.filter_cons]
+      rcases List.mem_cons.1 ha with rfl | ha'
+      · simp [hqa, hpa]; omega
+      · have ih := filter_length_lt' p q r hpq ⟨a, ha', hqa, hpa⟩
+        cases hp : p x <;> cases hq : q x <;> simp <;> try omega
+        have := hpq x hp; rw [hq] at this; cases this
+
+theorem key_of_succ (g : List (String × List String)) (a b : String) (h : b ∈ succ g a) : a ∈ g.map (·.1) := by
+  unfold succ dictLookup at h
+  cases hf : g.reverse.find? (fun e => e.1 == a) with
+  | none => simp [hf] at h
+  | some e =>
+      have he1 : e.1 = a := by have := List.find?_some hf; simpa using this
+      have hem : e ∈ g := List.mem_reverse.1 (List.mem_of_find?_eq_some hf)
+      exact List.mem_map.2 ⟨e, hem, he1⟩
+
+/-- with enough rounds the search returns a set that contains what it had seen and is closed under the edges -/
+theorem reach_complete (g : List (String × List String)) : ∀ (fuel : Nat) (seen frontier : List String),
+    (∀ x ∈ frontier, x ∈ seen) →
+    (∀ a, expanded seen frontier a = true → ∀ b ∈ succ g a, b ∈ seen) →
+    pot g seen frontier + 1 ≤ fuel →
+    (∀ x ∈ seen, x ∈ reach g fuel seen frontier) ∧
+    (∀ a ∈ reach g fuel seen frontier, ∀ b ∈ succ g a, b ∈ reach g fuel seen frontier)
+  | 0, _, _, _, _, hp => by omega
+  | fuel + 1, seen, frontier, hfs, hcl, hp => by
+      have hnextmem : ∀ a ∈ frontier, ∀ b ∈ succ g a,
+          b ∈ (frontier.flatMap (fun k => (dictLookup g k).getD [])).eraseDups := by
+        intro a ha b hb
+        exact List.mem_eraseDups.2 (List.mem_flatMap.2 ⟨a, ha, hb⟩)
+      simp only [reach]
+      split
+      · -- nothing new: what has been seen is closed
+        rename_i hnew
+        refine ⟨fun x hx => hx, ?_⟩
+        intro a ha b hb
+        by_cases haf : a ∈ frontier
+        · have hbn := hnextmem a haf b hb
+          have hemp : ((frontier.flatMap (fun k => (dictLookup g k).getD [])).eraseDups.filter (fun k => !seen.contains k)) = [] := by
+            simpa using hnew
+          have := List.filter_eq_nil_iff.1 hemp b hbn
+          simpa using this
+        · exact hcl a (by simp [expanded, ha, haf]) b hb
+      · rename_i hnew
+        -- the new ids become the frontier
+        have hnewsub : ∀ y ∈ ((frontier.flatMap (fun k => (dictLookup g k).getD [])).eraseDups.filter (fun k => !seen.contains k)),
+            y ∈ (frontier.flatMap (fun k => (dictLookup g k).getD [])).eraseDups ∧ y ∉ seen := by
+          intro y hy
+          have := List.mem_filter.1 hy
+          exact ⟨this.1, by simpa using this.2⟩
+        generalize hN : ((frontier.flatMap (fun k => (dictLookup g k).getD [])).eraseDups.filter (fun k => !seen.contains k)) = new at *
+        have hne : new ≠ [] := by simpa using hnew
+        obtain ⟨y0, hy0⟩ := List.exists_mem_of_ne_nil new hne
+        -- some node of the frontier has an entry: it is expanded in this round
+        obtain ⟨kf, hkf, hy0k⟩ := List.mem_flatMap.1 (List.mem_eraseDups.1 (hnewsub y0 hy0).1)
+        have hkey := key_of_succ g kf y0 hy0k
+        have ih := reach_complete g fuel (seen ++ new) new (fun x hx => List.mem_append.2 (Or.inr hx)) ?_ ?_
+        · exact ⟨fun x hx => ih.1 x (List.mem_append.2 (Or.inl hx)), ih.2⟩
+        · intro a ha b hb
+          simp only [expanded, Bool.and_eq_true, List.contains_eq_mem, decide_eq_true_eq, Bool.not_eq_true',
+            decide_eq_false_iff_not] at ha
+          obtain ⟨hamem, hanew⟩ := ha
+          have has : a ∈ seen := by
+            rcases List.mem_append.1 hamem with h | h
+            · exact h
+            · exact absurd h hanew
+          by_cases haf : a ∈ frontier
+          · have hbn := hnextmem a haf b hb
+            by_cases hbs : b ∈ seen
+            · exact List.mem_append.2 (Or.inl hbs)
+            · refine List.mem_append.2 (Or.inr ?_)
+              rw [← hN]; exact List.mem_filter.2 ⟨hbn, by simpa using hbs⟩
+          · exact List.mem_append.2 (Or.inl (hcl a (by simp [expanded, has, haf]) b hb))
+        · have hlt : pot g (seen ++ new) new < pot g seen frontier := by
+            unfold pot
+            apply filter_length_lt'
+            · intro x hx
+              simp only [expanded, Bool.not_eq_true', Bool.and_eq_false_iff, List.contains_eq_mem, decide_eq_false_iff_not,
+                Bool.not_eq_false', decide_eq_true_eq] at hx ⊢
+              rcases hx with h | h
+              · left; intro hs; exact h (List.mem_append.2 (Or.inl hs))
+              · by_cases hs : x ∈ seen
+                · exact absurd hs (hnewsub x h).2
+                · left; exact hs
+            · refine ⟨kf, hkey, ?_, ?_⟩
+              · simp [expanded, hkf]
+              · have hks : kf ∈ seen := hfs kf hkf
+                have hkn : kf ∉ new := fun h => (hnewsub kf h).2 hks
+                simp [expanded, hks, hkn]
+          omega
+
+theorem closed_path (g : List (String × List String)) (R : List String) (hcl : ∀ a ∈ R, ∀ b ∈ succ g a, b ∈ R) :
+    ∀ {a b : String}, Path g a b → a ∈ R → b ∈ R := by
+  intro a b hp
+  induction hp with
+  | edge h => intro ha; exact hcl _ ha _ h
+  | step h _ ih => intro ha; exact ih (hcl _ ha _ h)
+
+/-- **every circular reference is found**: if some id reaches itself along the edges of the id graph, `hasCycle` says so -/
+theorem cycle_detected (t : P) (k : String) (hp : Path (deps t) k k) : hasCycle t = true := by
+  have hstart : ∃ b, b ∈ succ (deps t) k ∧ (b = k ∨ Path (deps t) b k) := by
+    cases hp with
+    | edge h => exact ⟨k, h, Or.inl rfl⟩
+    | step h hq => exact ⟨_, h, Or.inr hq⟩
+  obtain ⟨b, hb, hbk⟩ := hstart
+  have hkey : k ∈ ((deps t).map (·.1)).eraseDups := List.mem_eraseDups.2 (key_of_succ _ k b hb)
+  unfold hasCycle
+  simp only
+  apply List.any_eq_true.2
+  refine ⟨k, hkey, ?_⟩
+  have hc := reach_complete (deps t) ((deps t).length + 1) ((succ (deps t) k).eraseDups) ((succ (deps t) k).eraseDups)
+    (fun x hx => hx) (by intro a ha; simp [expanded] at ha)
+    (by
+      have : pot (deps t) ((succ (deps t) k).eraseDups) ((succ (deps t) k).eraseDups) ≤ (deps t).length := by
+        unfold pot
+        exact Nat.le_trans (List.length_filter_le _ _) (by simp)
+      omega)
+  have hbR : b ∈ reach (deps t) ((deps t).length + 1) ((succ (deps t) k).eraseDups) ((succ (deps t) k).eraseDups) :=
+    hc.1 b (List.mem_eraseDups.2 hb)
+  have hkR : k ∈ reach (deps t) ((deps t).length + 1) ((succ (deps t) k).eraseDups) ((succ (deps t) k).eraseDups) := by
+    rcases hbk with rfl | hq
+    · exact hbR
+    · exact closed_path _ _ hc.2 hq hbR
+  simpa [succ] using hkR
+
+/-- **a model that `errors()` accepts has an acyclic id graph** — no id reaches itself -/
+theorem errors_nil_acyclic (t : P) (h : errors t = []) : ∀ k, ¬ Path (deps t) k k := by
+  intro k hp
+  have h1 := ((errors_nil_iff t).1 h).1
+  rw [cycle_detected t k hp] at h1
+  cases h1
+
+/-- non-vacuity: a node that lists its own id among its children is circular, and the search says so -/
+example : hasCycle (.node "A" ⟨0,1⟩ 1 1 [.leaf "A" ⟨0,1⟩, .leaf "x" ⟨0,1⟩] {}) = true ∧
+    Path (deps (.node "A" ⟨0,1⟩ 1 1 [.leaf "A" ⟨0,1⟩, .leaf "x" ⟨0,1⟩] {})) "A" "A" :=
+  ⟨by decide, Path.edge (by decide)⟩
 
 end Puan.C10
